@@ -44,14 +44,17 @@ theorem upgradeRoots_honest (C : Crypto) (bs : Array Bytes) (hN : bs.size < 2 ^ 
     rest.length < fuel →
     ∃ st', upgradeRoots C (2 * bs.size) fuel st = .ok st'
       ∧ st'.cs.roots = (done ++ rest).map (fun p => nodeAt C bs p.1 p.2) ∧ st'.cs.length = st.cs.length + (bs.size - s)
-      ∧ st'.q.extra = none ∧ st'.cs.fork = st.cs.fork := by
+      ∧ st'.q.extra = none ∧ st'.cs.fork = st.cs.fork
+      ∧ st'.cs.rnodes = (rest.map (fun p => nodeAt C bs p.1 p.2)).reverse ++ st.cs.rnodes
+      ∧ st'.cs.upgraded = (st.cs.upgraded || !rest.isEmpty)
+      ∧ st'.cs.origLength = st.cs.origLength ∧ st'.cs.origFork = st.cs.origFork ∧ st'.cs.ancestors = st.cs.ancestors := by
   intro rest
   induction rest with
   | nil =>
     intro done fuel s st hdone hrest _ hit _ _ _ hroots _ hex _ hfuel
     cases hrest
     obtain ⟨fuel, rfl⟩ : ∃ f, fuel = f + 1 := ⟨fuel - 1, by simp at hfuel; omega⟩
-    refine ⟨{ st with it := iat 0 bs.size }, ?_, by simpa using hroots, by simp, hex, rfl⟩
+    refine ⟨{ st with it := iat 0 bs.size }, ?_, by simpa using hroots, by simp, hex, rfl, by simp, by simp, rfl, rfl, rfl⟩
     unfold upgradeRoots
     rw [hit, fullRoot_done bs.size bs.size (Nat.le_refl _)]
     simp
@@ -111,7 +114,7 @@ theorem upgradeRoots_honest (C : Crypto) (bs : Array Bytes) (hN : bs.size < 2 ^ 
       have hlt : 2 ^ J < 2 ^ m := by omega
       have := (Nat.pow_lt_pow_iff_right (by decide : 1 < 2)).mp hlt
       omega
-    obtain ⟨hr1, hit1⟩ := appendRoot_nomerge C st.cs (nodeAt C bs J o) (iat J o) hnm
+    obtain ⟨hr1, hit1, hrn1⟩ := appendRoot_nomerge C st.cs (nodeAt C bs J o) (iat J o) hnm
     have hit1' : (appendRoot C st.cs (nodeAt C bs J o) (iat J o)).2 = iat J o := by
       rcases hit1 with e | e
       · exact e
@@ -121,9 +124,13 @@ theorem upgradeRoots_honest (C : Crypto) (bs : Array Bytes) (hN : bs.size < 2 ^ 
       have := pow_pos' J
       omega
     have hfork1 : (appendRoot C st.cs (nodeAt C bs J o) (iat J o)).1.fork = st.cs.fork := rfl
-    generalize har : appendRoot C st.cs (nodeAt C bs J o) (iat J o) = ar at hr1 hit1' hlen1 hfork1 ⊢
+    have hup1 : (appendRoot C st.cs (nodeAt C bs J o) (iat J o)).1.upgraded = true := rfl
+    have horig1 : (appendRoot C st.cs (nodeAt C bs J o) (iat J o)).1.origLength = st.cs.origLength
+        ∧ (appendRoot C st.cs (nodeAt C bs J o) (iat J o)).1.origFork = st.cs.origFork
+        ∧ (appendRoot C st.cs (nodeAt C bs J o) (iat J o)).1.ancestors = st.cs.ancestors := ⟨rfl, rfl, rfl⟩
+    generalize har : appendRoot C st.cs (nodeAt C bs J o) (iat J o) = ar at hr1 hit1' hlen1 hfork1 hrn1 hup1 horig1 ⊢
     obtain ⟨cs1, it1⟩ := ar
-    simp only at hr1 hit1' hlen1 hfork1 ⊢
+    simp only at hr1 hit1' hlen1 hfork1 hrn1 hup1 horig1 ⊢
     have hdone' : Cover (done ++ [(J, o)]) 0 (s + 2 ^ J) := by
       apply hdone.append
       refine Cover.cons J o s _ [] c3 ?_
@@ -134,7 +141,7 @@ theorem upgradeRoots_honest (C : Crypto) (bs : Array Bytes) (hN : bs.size < 2 ^ 
       | cons _ _ _ _ _ _ hr =>
         have : (o + 1) * 2 ^ J = s + 2 ^ J := by rw [c3]; ring
         rw [this] at hr; exact hr
-    obtain ⟨st', h1, h2, h3, h4, h5⟩ := ih (done ++ [(J, o)]) fuel (s + 2 ^ J)
+    obtain ⟨st', h1, h2, h3, h4, h5, h6, h7, h8, h9, h10⟩ := ih (done ++ [(J, o)]) fuel (s + 2 ^ J)
       { st with cs := cs1, it := it1.nextTree, q := ⟨rest.map (fun p => nodeAt C bs p.1 p.2), none, st.q.length - 1⟩, grow := false }
       hdone' hrest' (List.pairwise_cons.mp hdec).2 (by show it1.nextTree = _; rw [hit1', hnext]) hal' rfl hi
       (by show cs1.roots = _; rw [hr1, hroots]; simp) rfl rfl
@@ -145,7 +152,11 @@ theorem upgradeRoots_honest (C : Crypto) (bs : Array Bytes) (hN : bs.size < 2 ^ 
         subst hr'
         exact ⟨J, o, rfl, hmax⟩)
       (by simp at hfuel; omega)
-    refine ⟨st', h1, by rw [h2]; simp, ?_, h4, by rw [h5]; exact hfork1⟩
+    refine ⟨st', h1, by rw [h2]; simp, ?_, h4, by rw [h5]; exact hfork1, ?_, ?_, by rw [h8]; exact horig1.1, by rw [h9]; exact horig1.2.1,
+      by rw [h10]; exact horig1.2.2⟩
+    rotate_left
+    · rw [h6]; show _ ++ cs1.rnodes = _; rw [hrn1]; simp
+    · rw [h7, hup1]; simp
     rw [h3]
     show cs1.length + _ = _
     rw [hlen1]
@@ -157,10 +168,12 @@ theorem fresh_upgrade_accepted (C : Crypto) (bs : Array Bytes) (hN : bs.size < 2
     (cs : Changeset) (hroots : cs.roots = []) (hlen : cs.length = 0)
     (hsl : sig.length = 64) (hver : C.verify pk (RefTree.signableOf C bs fork) sig = true) :
     ∃ cs', verifyUpgrade C fork ⟨0, bs.size, RefTree.roots C bs, [], sig⟩ none pk cs = .ok (true, cs')
-      ∧ cs'.roots = RefTree.roots C bs ∧ cs'.length = bs.size ∧ cs'.fork = fork ∧ cs'.signature = some sig := by
+      ∧ cs'.roots = RefTree.roots C bs ∧ cs'.length = bs.size ∧ cs'.fork = fork ∧ cs'.signature = some sig
+      ∧ cs'.rnodes = (RefTree.roots C bs).reverse ++ cs.rnodes ∧ cs'.upgraded = true
+      ∧ cs'.origLength = cs.origLength ∧ cs'.origFork = cs.origFork ∧ cs'.ancestors = cs.ancestors := by
   have hrs : RefTree.roots C bs = (rootsStack bs.size).reverse.map (fun p => nodeAt C bs p.1 p.2) := by
     simp [RefTree.roots]
-  obtain ⟨st', h1, h2, h3, h4, _⟩ := upgradeRoots_honest C bs hN (rootsStack bs.size).reverse [] (2 * bs.size + 2) 0
+  obtain ⟨st', h1, h2, h3, h4, _, h6, h7, h8, h9, h10⟩ := upgradeRoots_honest C bs hN (rootsStack bs.size).reverse [] (2 * bs.size + 2) 0
     ⟨cs, Iter.new 0, NodeQueue.new (RefTree.roots C bs) none, 0, !cs.roots.isEmpty⟩
     (Cover.nil 0) (cover_roots bs.size) (rootsStack_rev_dec bs.size) (by show Iter.new 0 = iat 0 0; exact new_even 0) (align_zero _)
     (by simp [hroots]) rfl (by simp [hroots]) (by simp [NodeQueue.new, hrs]) rfl
@@ -181,7 +194,19 @@ theorem fresh_upgrade_accepted (C : Crypto) (bs : Array Bytes) (hN : bs.size < 2
     cases hl : st'.cs.roots.getLast? with
     | none => rw [List.getLast?_eq_none_iff] at hl; exact absurd hl hne
     | some l => exact ⟨l, rfl⟩
-  refine ⟨{ st'.cs with fork := fork, hash := some (rootsHash C st'.cs.roots), signature := some sig }, ?_, ?_, ?_, rfl, rfl⟩
+  have hrne : (rootsStack bs.size).reverse ≠ [] := by
+    intro hnil
+    have hc := cover_roots bs.size
+    rw [hnil] at hc
+    have := cover_nil_eq _ _ hc
+    omega
+  have hupg : st'.cs.upgraded = true := by
+    rw [h7]
+    cases hx : (rootsStack bs.size).reverse with
+    | nil => exact absurd hx hrne
+    | cons a b => simp
+  refine ⟨{ st'.cs with fork := fork, hash := some (rootsHash C st'.cs.roots), signature := some sig }, ?_, ?_, ?_, rfl, rfl,
+    by show st'.cs.rnodes = _; rw [h6, hrs], hupg, h8, h9, h10⟩
   · unfold verifyUpgrade
     simp only [andThen, Nat.zero_add]
     rw [h1]
